@@ -29,8 +29,17 @@ def main():
         rows.append("| {} | {} | {} | {} | {} | {} |".format(
             j.get("id", os.path.basename(os.path.dirname(m))), j.get("property", ""), j.get("summary", "").replace("|", "/"),
             j.get("needs", "").replace("|", "/"), ", ".join(j.get("caught_by_quick", [])) or "-", ", ".join(j.get("caught_by_thorough", [])) or "-"))
+    man = json.load(open(os.path.join(V, "MANIFEST.json")))
+    st = ["| property | engine | deciding technique (MANIFEST) | last committed evidence: tier, evaluations / distinct non-trivial, wall |", "|---|---|---|---|"]
+    for c in man["checks"]:
+        ev_p = os.path.join(V, "evidence", c["property_id"] + ".json")
+        ev = json.load(open(ev_p)) if os.path.exists(ev_p) else None
+        evs = f"{ev['tier']}, {ev['coverage']['evaluations']} / {ev['coverage']['distinct_nontrivial']}, {ev['wall_s']} s" if ev else "-"
+        st.append(f"| {c['property_id']} | {c['engine']} | {c['technique'].replace('|', '/')} | {evs} |")
     p = os.path.join(V, "DESIGN.md")
     s = open(p).read()
+    if "<!-- STATUS-TABLE-BEGIN -->" in s:
+        s = fill(s, "STATUS-TABLE", "\n".join(st))
     s = fill(s, "FIXED-LIST", "\n".join(fixed))
     s = fill(s, "KF-LIST", "\n".join(kf))
     s = fill(s, "SEEDED-TABLE", "\n".join(rows))
